@@ -73,6 +73,9 @@ def run(src, q):
     from .. import stubs
     with stubs.sut():
         r.actions = m_act.load_action_list(r.sc)
+        psp = m_act.ParameterisedActionSpace(r.sc)
+        r.param_scans = {k: psp.get_action([ti, 0, 0, 0, 0, 0]) for k, ti in
+                         (('service', 2), ('os', 3), ('subnet', 4), ('process', 5))}
     return r
 
 
@@ -101,6 +104,8 @@ def obligations(r):
         mine = [a for a in acts if getattr(a, pred)()]
         obl.append(('environment_%s_scans' % short, z3.And([z3.BoolVal(len(mine) == len(exp['addrs']))] +
                                                            [loaderh._eqv(a.cost, exp['scan'][short]) for a in mine])))
+    for short, a in r.param_scans.items():
+        obl.append(('environment_%s_scan_cost_by_parameter_vector' % short, loaderh._eqv(a.cost, exp['scan'][short])))
     return obl
 
 
